@@ -263,3 +263,69 @@ func VerifH_TreeUpdateAtomic() {
 	}
 	symx.Reach("end")
 }
+
+// C03/H1c (wrapper, large limits): a tree of `items` consecutive keys built through the public API and
+// scanned with limits around and above 1024 (and above the item count): a scan returns exactly the first
+// min(n, matching) items in scan order - limits are not clamped by anything but the set itself.
+func VerifH_TreeLargeScan() {
+	items := symx.Param("items", 1100)
+	b := NewBTree()
+	for i := 0; i < items; i++ {
+		b.Insert(btree.VerifKey{K: int64(i), Tag: 0})
+	}
+	limits := []int{1023, 1024, 1025, items - 1, items, items + 1, 2000}
+	n := limits[symx.Concrete(symx.Int("limit"), 0, len(limits)-1)]
+	pv := int64(symx.Concrete(symx.Int("pivot"), 0, 2)) * 30 // pivots 0, 30, 60
+	var pivot Node = btree.VerifKey{K: pv}
+	if symx.Bool("nilPivot") {
+		pivot = nil
+	}
+	all := func(Node) bool { return true }
+	op := symx.Concrete(symx.Int("op"), 0, 3)
+	var got []Node
+	var first, matching int64
+	step := int64(1)
+	switch op {
+	case 0:
+		got = b.AscendGte(pivot, all, n)
+		first, matching = pv, int64(items)-pv
+	case 1:
+		got = b.AscendGt(pivot, all, n)
+		first, matching = pv+1, int64(items)-pv-1
+	case 2:
+		// descending from a pivot near the top so that more than 1024 items match
+		top := int64(items) - 1 - pv
+		if pivot != nil {
+			pivot = btree.VerifKey{K: top}
+		}
+		got = b.DescendLte(pivot, all, n)
+		first, matching, step = top, top+1, -1
+	case 3:
+		top := int64(items) - 1 - pv
+		if pivot != nil {
+			pivot = btree.VerifKey{K: top}
+		}
+		got = b.DescendLt(pivot, all, n)
+		first, matching, step = top-1, top, -1
+	}
+	if pivot == nil {
+		matching = int64(items)
+		if step == 1 {
+			first = 0
+		} else {
+			first = int64(items) - 1
+		}
+	}
+	want := int64(n)
+	if matching < want {
+		want = matching
+	}
+	symx.Assert(int64(len(got)) == want, "a scan returns exactly the first min(n, matching) items")
+	for i := 0; i < len(got) && int64(i) < want; i += 97 {
+		symx.Assert(got[i].(btree.VerifKey).K == first+step*int64(i), "in scan order")
+	}
+	if len(got) > 0 {
+		symx.Assert(got[len(got)-1].(btree.VerifKey).K == first+step*int64(len(got)-1), "in scan order up to the last item")
+	}
+	symx.Reach("end")
+}
